@@ -547,6 +547,22 @@ func c09Structure(kind string, n int) []byte {
 			fmt.Fprintf(&sb, ` xmlns:p%d="urn:x:%d"`, i, i)
 		}
 		sb.WriteString(`/>`)
+	case "namespace-redeclarations":
+		// n siblings, each declaring the same two prefixes again (what xs/xsi-typed attribute
+		// values look like) plus one of its own
+		sb.WriteString(`<samlp:Response xmlns:samlp="` + idp.NSP + `" ID="_r" Version="2.0">`)
+		for i := 0; i < n; i++ {
+			fmt.Fprintf(&sb, `<p%d:v xmlns:p%d="urn:x:%d" xmlns:xs="http://www.w3.org/2001/XMLSchema" xmlns:xsi="http://www.w3.org/2001/XMLSchema-instance" xsi:type="xs:string">v</p%d:v>`, i%7, i%7, i, i%7)
+		}
+		sb.WriteString(`</samlp:Response>`)
+	case "nested-namespace-redeclarations":
+		// a chain of n elements, each declaring the same prefix again for another namespace
+		sb.WriteString(`<samlp:Response xmlns:samlp="` + idp.NSP + `" ID="_c" Version="2.0">`)
+		for i := 0; i < n; i++ {
+			fmt.Fprintf(&sb, `<p:e xmlns:p="urn:x:%d" xmlns:q%d="urn:y">`, i, i%3)
+		}
+		sb.WriteString(strings.Repeat("</p:e>", n))
+		sb.WriteString(`</samlp:Response>`)
 	case "signatures":
 		sb.WriteString(`<samlp:Response xmlns:samlp="` + idp.NSP + `" xmlns:ds="` + idp.NSDS + `" ID="_s" Version="2.0">`)
 		sb.WriteString(strings.Repeat(`<ds:Signature><ds:SignedInfo/><ds:SignatureValue/></ds:Signature>`, n))
@@ -665,7 +681,7 @@ func c09Run(r *mc.Run) {
 		bits = []uint{0, 1, 2, 3, 4, 5, 6, 7}
 	}
 	r.Level = "fault_enumeration"
-	r.Rule = "(a) 6 base messages x 3 layers (base64 text, DEFLATE stream, XML bytes): every truncation offset, every single-bit flip (quick: bits 0 and 7 of every byte; thorough: all 8), 12 byte substitutions at every position, each fed to the entry points of its kind under 6 configurations (truncations: to all 6 entry points); (b) unsigned Response + EncryptedAssertion: 8 algorithm identifiers x every ciphertext length 0..64 x content families (zeros, 0xff, valid-truncated, every final plaintext byte 0..255, every position x value of the last non-zero byte of the final block, all-zero final block) with deviation-bounded key-transport / digest / key length / placement / recipient variants, through ValidateEncodedResponse and through DecryptBytes/Decrypt directly; every document one attacker edit (C01's operator menu) away from 8 genuine messages; an EncryptedAssertion that decrypts to a rootless plaintext (empty, whitespace, comment, prolog, text, two roots); a valid EncryptedAssertion at 11 placements (direct child, twice, 4 wrappers, nested elements named like the root, inside an assertion, inside another EncryptedAssertion) under signed and unsigned roots, each also delivered three times to one instance of every configuration (incl. a key store whose GetKeyPair fails); direct DecryptSymmetricKey/DecryptBytes calls with odd certificates; (c) structure extremes in a child process. non-trivial = the input passed base64 decoding (reached XML/DEFLATE processing) or reached the decryption routine; distinct = distinct input"
+	r.Rule = "(a) 6 base messages x 3 layers (base64 text, DEFLATE stream, XML bytes): every truncation offset, every single-bit flip (quick: bits 0 and 7 of every byte; thorough: all 8), 12 byte substitutions at every position, each fed to the entry points of its kind under 6 configurations (truncations: to all 6 entry points); (b) unsigned Response + EncryptedAssertion: 8 algorithm identifiers x every ciphertext length 0..64 x content families (zeros, 0xff, valid-truncated, every final plaintext byte 0..255, every position x value of the last non-zero byte of the final block, all-zero final block) with deviation-bounded key-transport / digest / key length / placement / recipient variants, through ValidateEncodedResponse and through DecryptBytes/Decrypt directly; every document one attacker edit (C01's operator menu) away from 8 genuine messages; an EncryptedAssertion that decrypts to a rootless plaintext (empty, whitespace, comment, prolog, text, two roots); a valid EncryptedAssertion at 11 placements (direct child, twice, 4 wrappers, nested elements named like the root, inside an assertion, inside another EncryptedAssertion) under signed and unsigned roots, each also delivered three times to one instance of every configuration (incl. a key store whose GetKeyPair fails); direct DecryptSymmetricKey/DecryptBytes calls with odd certificates; (c) structure extremes in a child process (depth, width, attribute count, text size, signature count, namespace prefixes declared on one element (31..2000), declared again on each of n siblings (8..30000) and on each element of a chain (12..5000)). non-trivial = the input passed base64 decoding (reached XML/DEFLATE processing) or reached the decryption routine; distinct = distinct input"
 	r.Assume("a Go panic in the callee is observable by recover(); fatal runtime errors are observed as death of a child process")
 
 	// (a)
@@ -900,7 +916,10 @@ func c09Run(r *mc.Run) {
 		to   time.Duration
 	}
 	structs := []st{{"depth", 10, 20 * time.Second}, {"depth", 1000, 20 * time.Second}, {"depth", 10001, 30 * time.Second}, {"width", 1000, 20 * time.Second}, {"width", 100000, 60 * time.Second},
-		{"attributes", 10000, 60 * time.Second}, {"text", 4000000, 60 * time.Second}, {"namespaces", 2000, 60 * time.Second}, {"signatures", 300, 60 * time.Second}}
+		{"attributes", 10000, 60 * time.Second}, {"text", 4000000, 60 * time.Second}, {"namespaces", 2000, 60 * time.Second}, {"namespaces", 31, 20 * time.Second}, {"namespaces", 33, 20 * time.Second}, {"namespaces", 256, 20 * time.Second},
+		{"namespace-redeclarations", 8, 20 * time.Second}, {"namespace-redeclarations", 11, 20 * time.Second}, {"namespace-redeclarations", 40, 20 * time.Second}, {"namespace-redeclarations", 90, 20 * time.Second}, {"namespace-redeclarations", 700, 20 * time.Second}, {"namespace-redeclarations", 30000, 60 * time.Second},
+		{"nested-namespace-redeclarations", 12, 20 * time.Second}, {"nested-namespace-redeclarations", 17, 20 * time.Second}, {"nested-namespace-redeclarations", 40, 20 * time.Second}, {"nested-namespace-redeclarations", 300, 20 * time.Second}, {"nested-namespace-redeclarations", 5000, 60 * time.Second},
+		{"signatures", 300, 60 * time.Second}}
 	if r.Thorough() {
 		structs = append(structs, st{"depth", 100000, 120 * time.Second}, st{"depth", 700000, 400 * time.Second}, st{"width", 1000000, 200 * time.Second})
 	}
